@@ -229,24 +229,22 @@ Example C16_ex_ret_enabled :
           (LRetWait 0 false false) = true.
 Proof. exact ex_ret_enabled. Qed.
 
-(* ---- the correspondence check's history matcher is sound and its rejections are genuine ----
-   (generic theorems of Conc/GoLTSProofs.v instantiated for this model: an accepted history IS a run of
-   the model; a rejected history whose closures converged within the fuel is produced by NO run) *)
-From Juniper Require Import Conc.GoLTSProofs.
+(* ---- the correspondence check's history matcher is certified for this model (Conc/CondMatcher.v on top of
+   the generic Conc/GoLTSProofs.v): an accepted history IS the trace of a run of the model, and a rejected
+   history whose closures converged within the fuel ([cond_converged], evaluated by the check for every
+   history) is the trace of NO run - so a reported model/implementation disagreement is never an artefact of
+   the matcher ---- *)
+From Juniper Require Conc.GoLTSProofs Conc.CondMatcher.
 
 Theorem C16_matcher_sound : forall cfg nctx evs,
     accepts_history cfg nctx evs = true ->
-    exists ls s, run qstep (init cfg nctx) ls = Some s /\ trace lab lab vis ls = evs.
-Proof.
-  intros cfg nctx evs H.
-  apply (accepts_sound st lab lab qstep vis lab_eqb st_eqb tau_labels (fun _ e => [e])) with (fuel := 64%nat).
-  - intros a b E. destruct a, b; simpl in E; try discriminate; try reflexivity;
-      repeat match goal with
-             | H : (_ && _)%bool = true |- _ => apply andb_prop in H; destruct H
-             | H : Nat.eqb _ _ = true |- _ => apply Nat.eqb_eq in H; subst
-             | H : Bool.eqb _ _ = true |- _ => apply Bool.eqb_prop in H; subst
-             end; reflexivity.
-  - exact H.
-Qed.
+    exists ls s, run qstep (init cfg nctx) ls = Some s /\ CondMatcher.cond_trace ls = evs.
+Proof. exact CondMatcher.cond_accepts_sound. Qed.
+
+Theorem C16_matcher_rejections_genuine : forall cfg nctx evs,
+    CondMatcher.cond_converged cfg nctx evs = true -> accepts_history cfg nctx evs = false ->
+    forall ls s, run qstep (init cfg nctx) ls = Some s -> CondMatcher.cond_trace ls <> evs.
+Proof. exact CondMatcher.cond_reject_genuine. Qed.
 
 Print Assumptions C16_matcher_sound.
+Print Assumptions C16_matcher_rejections_genuine.
